@@ -19,7 +19,14 @@
 /* a[i] arbitrary, b[i] arbitrary (either a fresh value or a copy of a[i]: the selector only helps the gate's sampler to hit equal operands) */
 static void in_pair64(u64* a, u64* b, int n){ for (int i = 0; i < n; i++){ a[i] = in_bits(); u64 t = in_bits(); u64 s = in_u64(0, 1); b[i] = s ? a[i] : t; } }
 static void in_pair32(u32* a, u32* b, int n){ for (int i = 0; i < n; i++){ a[i] = in_any32(); u32 t = in_any32(); u64 s = in_u64(0, 1); b[i] = s ? a[i] : t; } }
-static void in_pairf(float* a, float* b, int n){ for (int i = 0; i < n; i++){ a[i] = in_f32(); float t = in_f32(); u64 s = in_u64(0, 2); b[i] = s == 1 ? a[i] : s == 2 ? a[i] + t : t; } }
+/* FALPHA (quick tier of the wrapper harnesses: arrays, maybe, either, tuple): element values and eps come from a small alphabet that contains equal, close,
+ * far, negative, zero and NaN cases; the element-level comparison itself is decided over ALL bit patterns in h_close_f32 / h_close_f64. Without FALPHA every value is any bit pattern. */
+#ifdef FALPHA
+static float in_fval(void){ static const float tab[8] = {0.0f, 1.0f, 1.5f, -1.0f, 1.0000001f, 2.5f, 1e30f, 0.0f}; u64 k = in_u64(0, 7); float nanv; { union { u32 b; float f; } x; x.b = 0x7fc00000u; nanv = x.f; } return k == 7 ? nanv : tab[k]; }
+#else
+static float in_fval(void){ return in_f32(); }
+#endif
+static void in_pairf(float* a, float* b, int n){ for (int i = 0; i < n; i++){ a[i] = in_fval(); float t = in_fval(); u64 s = in_u64(0, 1); b[i] = s == 1 ? a[i] : t; } }
 static int eq64(const u64* a, u64 na, const u64* b, u64 nb){ if (na != nb) return 0; int e = 1; for (u64 i = 0; i < 4; i++) if (i < na && a[i] != b[i]) e = 0; return e; }
 static int closef(float a, float b, float eps){ float d = a - b; float m = d < 0 ? -d : d; return m < eps; }
 static int closef_default(float a, float b){ float d = a - b; float m = d < 0 ? -d : d; return (double)m < 1e-6; }   /* isclose's default eps */
@@ -107,7 +114,7 @@ void h_num(void){
   REACHED();
 }
 void h_close_f32(void){
-  float a, b; in_pairf(&a, &b, 1); float eps = in_f32();
+  float a = in_f32(), t = in_f32(); u64 s = in_u64(0, 2); float b = s == 1 ? a : s == 2 ? a + t : t; float eps = in_f32();
   BOTHX(KS(k_close_f32)(a, b, eps, 0), KS(k_close_f32)(a, b, eps, 1), closef(a, b, eps), closef(b, a, eps), "float/float");
   REACHED();
 }
@@ -125,18 +132,20 @@ void h_close_lemma(void){    /* the reference is symmetric: a fact about IEEE-75
 static int closed_as_float(double a, double b, double eps){ double d = a - b; double m = d < 0 ? -d : d; return (double)(float)m < eps; }
 void h_close_f64(void){
   double c = in_f64(), t = in_f64(), e2 = in_f64(); u64 s = in_u64(0, 2); double d = s == 1 ? c : s == 2 ? c + t : t;
+  double d0 = c - d, m0 = d0 < 0 ? -d0 : d0, d1 = d - c, m1 = d1 < 0 ? -d1 : d1;      /* |c-d| and |d-c| */
 #ifdef KF_C18_CLOSE_DOUBLE_ROUNDS_TO_FLOAT
-  ASSUME(closed_as_float(c, d, e2) == closed(c, d, e2) && closed_as_float(d, c, e2) == closed(d, c, e2));
+  ASSUME((((double)(float)m0 < e2) == (m0 < e2)) && (((double)(float)m1 < e2) == (m1 < e2)));   /* region: rounding the difference to float changes the verdict */
 #endif
-  BOTHX(KS(k_close_f64)(c, d, e2, 0), KS(k_close_f64)(c, d, e2, 1), closed(c, d, e2), closed(d, c, e2), "double/double");
+  BOTHX(KS(k_close_f64)(c, d, e2, 0), KS(k_close_f64)(c, d, e2, 1), m0 < e2, m1 < e2, "double/double");
   REACHED();
 }
 void h_close_f32_f64(void){
   float a = in_f32(); double t = in_f64(), e2 = in_f64(); u64 s = in_u64(0, 2); double d = s == 1 ? (double)a : s == 2 ? (double)a + t : t;
+  double d0 = (double)a - d, m0 = d0 < 0 ? -d0 : d0, d1 = d - (double)a, m1 = d1 < 0 ? -d1 : d1;
 #ifdef KF_C18_CLOSE_DOUBLE_ROUNDS_TO_FLOAT
-  ASSUME(closed_as_float((double)a, d, e2) == closed((double)a, d, e2) && closed_as_float(d, (double)a, e2) == closed(d, (double)a, e2));
+  ASSUME((((double)(float)m0 < e2) == (m0 < e2)) && (((double)(float)m1 < e2) == (m1 < e2)));
 #endif
-  BOTHX(KS(k_close_f32_f64)(a, d, e2, 0), KS(k_close_f32_f64)(a, d, e2, 1), closed((double)a, d, e2), closed(d, (double)a, e2), "float/double");
+  BOTHX(KS(k_close_f32_f64)(a, d, e2, 0), KS(k_close_f32_f64)(a, d, e2, 1), m0 < e2, m1 < e2, "float/double");
   REACHED();
 }
 /* integer operands: |a-b| < eps over the integers (exact in double: |a-b| <= 2^32) */
@@ -219,14 +228,14 @@ void h_nd_d_h2(void){
 /* isclose on float arrays */
 static int close_data(const float* a, const float* b, u64 n, float eps){ int e = 1; for (u64 i = 0; i < CAP; i++) if (i < n && !closef(a[i], b[i], eps)) e = 0; return e; }
 void h_close_h2_h2(void){
-  u64 sa[2], sb[2]; float da[CAP], db[CAP]; in_shape(sa, 2); in_shape(sb, 2); in_pairf(da, db, CAP); float eps = in_f32();
+  u64 sa[2], sb[2]; float da[CAP], db[CAP]; in_shape(sa, 2); in_shape(sb, 2); in_pairf(da, db, CAP); float eps = in_fval();
   int ss = same_shape(sa, 2, sb, 2);
   DBG_EXCLUDE(!ss);
   BOTHX(KS(k_close_h2_h2)(sa, da, sb, db, eps, 0), KS(k_close_h2_h2)(sa, da, sb, db, eps, 1), ss && close_data(da, db, prod(sa, 2), eps), ss && close_data(db, da, prod(sa, 2), eps), "isclose hybrid 2-d / hybrid 2-d");
   REACHED();
 }
 void h_close_b_b(void){
-  u64 sa[3], sb[3]; float da[CAP], db[CAP]; u64 na = NA, nb = NB; in_shape(sa, 3); in_shape(sb, 3); in_pairf(da, db, CAP); float eps = in_f32();
+  u64 sa[3], sb[3]; float da[CAP], db[CAP]; u64 na = NA, nb = NB; in_shape(sa, 3); in_shape(sb, 3); in_pairf(da, db, CAP); float eps = in_fval();
   ASSUME(prod(sa, na) <= CAPB && prod(sb, nb) <= CAPB);
   int ss = same_shape(sa, na, sb, nb);
   DBG_EXCLUDE(!ss);
@@ -253,7 +262,7 @@ void h_maybe_value(void){
   REACHED();
 }
 void h_close_maybe(void){
-  float a, b; in_pairf(&a, &b, 1); float eps = in_f32(); u32 ha = in_u32(0, 1), hb = in_u32(0, 1);
+  float a, b; in_pairf(&a, &b, 1); float eps = in_fval(); u32 ha = in_u32(0, 1), hb = in_u32(0, 1);
   int e0 = (!ha && !hb) ? 1 : (ha != hb) ? 0 : closef(a, b, eps), e1 = (!ha && !hb) ? 1 : (ha != hb) ? 0 : closef(b, a, eps);
   BOTHX(KS(k_close_maybe_maybe)(ha, a, hb, b, eps, 0), KS(k_close_maybe_maybe)(ha, a, hb, b, eps, 1), e0, e1, "isclose maybe/maybe");
   BOTHX(KS(k_close_maybe_value)(ha, a, b, eps, 0), KS(k_close_maybe_value)(ha, a, b, eps, 1), ha ? closef(a, b, eps) : 0, ha ? closef(b, a, eps) : 0, "isclose maybe/value");
@@ -276,13 +285,13 @@ void h_either_value(void){
   REACHED();
 }
 void h_close_either(void){
-  u64 s[1]; float da[CAP], db[CAP], xa, xb; s[0] = in_u64(0, MAXE); in_pairf(da, db, MAXE); in_pairf(&xa, &xb, 1); float eps = in_f32(); u32 ra = in_u32(0, 1), rb = in_u32(0, 1);
+  u64 s[1]; float da[CAP], db[CAP], xa, xb; s[0] = in_u64(0, MAXE); in_pairf(da, db, MAXE); in_pairf(&xa, &xb, 1); float eps = in_fval(); u32 ra = in_u32(0, 1), rb = in_u32(0, 1);
   int e0 = (ra != rb) ? 0 : ra ? close_data(da, db, s[0], eps) : closef(xa, xb, eps), e1 = (ra != rb) ? 0 : ra ? close_data(db, da, s[0], eps) : closef(xb, xa, eps);
   BOTHX(KS(k_close_either_either)(ra, xa, rb, xb, s, da, db, eps, 0), KS(k_close_either_either)(ra, xa, rb, xb, s, da, db, eps, 1), e0, e1, "isclose either/either");
   REACHED();
 }
 void h_close_either_value(void){
-  u64 s[1]; float da[CAP], xa, v; s[0] = in_u64(0, MAXE); for (int i = 0; i < MAXE; i++) da[i] = in_f32(); in_pairf(&xa, &v, 1); float eps = in_f32(); u32 ra = in_u32(0, 1);
+  u64 s[1]; float da[CAP], xa, v; s[0] = in_u64(0, MAXE); for (int i = 0; i < MAXE; i++) da[i] = in_fval(); in_pairf(&xa, &v, 1); float eps = in_fval(); u32 ra = in_u32(0, 1);
 #ifdef KF_C18_CLOSE_EITHER_DROPS_EPS
   ASSUME(!(!ra && (closef(xa, v, eps) != closef_default(xa, v) || closef(v, xa, eps) != closef_default(v, xa))));   /* the one-sided either branch calls isclose without eps (default 1e-6 is used) */
 #endif
@@ -298,7 +307,7 @@ void h_tuple(void){
   REACHED();
 }
 void h_close_tuple(void){
-  float f[2], g[2]; in_pairf(f, g, 2); float eps = in_f32();
+  float f[2], g[2]; in_pairf(f, g, 2); float eps = in_fval();
   BOTHX(KS(k_close_tuple2)(f[0], f[1], g[0], g[1], eps, 0), KS(k_close_tuple2)(f[0], f[1], g[0], g[1], eps, 1), closef(f[0], g[0], eps) && closef(f[1], g[1], eps), closef(g[0], f[0], eps) && closef(g[1], f[1], eps), "isclose tuple/tuple");
   REACHED();
 }
